@@ -11,6 +11,7 @@ import (
 	"runtime/debug"
 	"sort"
 	"strings"
+	"time"
 
 	"github.com/go-fed/activity/pub"
 	"github.com/go-fed/activity/streams/vocab"
@@ -30,6 +31,13 @@ type Request struct {
 	// WriteFail makes ResponseWriter.Write fail: "error" returns an error,
 	// "short" reports one byte fewer than given.
 	WriteFail string `json:"write_fail,omitempty"`
+	// During lists requests that run to completion, each on a goroutine of
+	// its own, at the moment this request's ResponseWriter method named by
+	// DuringAt ("Header", "WriteHeader" or "Write") is first called: the
+	// schedule in which this request is preempted at that call and other
+	// requests are served meanwhile.
+	During   []Request `json:"during,omitempty"`
+	DuringAt string    `json:"during_at,omitempty"`
 }
 
 // failingReader yields the first n bytes of b, then an error.
@@ -89,6 +97,11 @@ type Response struct {
 	SendID      string            `json:"send_id,omitempty"`
 	FirstEvent  int               `json:"first_event"`
 	LastEvent   int               `json:"last_event"`
+	// Inner holds the responses of the requests served while this one was
+	// preempted (Request.During); InnerStuck is set when they did not return
+	// while this request waited (they are then joined after it returned).
+	Inner      []Response `json:"inner,omitempty"`
+	InnerStuck bool       `json:"inner_stuck,omitempty"`
 }
 
 // Result is the outcome of a scenario.
@@ -182,6 +195,35 @@ func (w *World) Do(actor pub.FederatingActor, req Request, reqID string) (resp R
 		resp.LastEvent = len(w.Events())
 	}()
 	rw := NewRW()
+	var innerDone chan struct{}
+	if len(req.During) > 0 {
+		inner := make([]Response, len(req.During))
+		innerDone = make(chan struct{})
+		fired := false
+		rw.Hook = func(at string) {
+			if fired || at != req.DuringAt {
+				return
+			}
+			fired = true
+			go func() {
+				defer close(innerDone)
+				for i, q := range req.During {
+					inner[i] = w.Do(actor, q, fmt.Sprintf("%s.d%d", reqID, i))
+				}
+			}()
+			select {
+			case <-innerDone:
+			case <-time.After(20 * time.Second):
+				resp.InnerStuck = true
+			}
+		}
+		defer func() {
+			if fired {
+				<-innerDone
+				resp.Inner = inner
+			}
+		}()
+	}
 	finish := func(handled bool, err error) {
 		resp.Handled = handled
 		if err != nil {
